@@ -418,6 +418,34 @@ def run_case(case, tier):
                 if o["connected_after"]:
                     V.append({"mech": f"connected_after_connection_lost:{close['how']}", "detail": f"ConnectionLost was raised (peer closed with {close['how']}, "
                                                                                                 f"cut={None if not cut else cut['partial']}) but client.connected is still True"})
+        if close and any(o["kind"] == "lost" for o in outcomes) and not c.connected and case.get("n", 0) % 2 == 0:
+            # the same Client object connects again after the loss: it has subscribed to nothing on the new connection,
+            # so frames of the types it used to subscribe to (queued at once by the new peer) must not be returned
+            peer2 = Peer(tc)
+            try:
+                c.connect(f"127.0.0.1:{peer2.port}")
+                peer2.hs.join(5)
+                if not peer2.err and peer2.conn is not None:
+                    again = [mk_frame(k, 50 + n, D, tc) for n, k in enumerate(["good", "good2", "signal", "good"])]
+                    peer2.send(b"".join(bytes.fromhex(f["hex"]) for f in again))
+                    C["reconnects_after_loss_checked"] = 1
+                    for _ in range(6):
+                        try:
+                            m2 = c.read_message(timeout=0.05)
+                        except (UnknownMessageType, InvalidMessageDefinition):
+                            continue
+                        except (ConnectionLost, NotConnectedError):
+                            break
+                        if m2 is None:
+                            break
+                        V.append({"mech": "returned_unsubscribed_type:after_reconnect",
+                                  "detail": f"after ConnectionLost and connect() on the same Client, read_message returned type {m2.header.msg_type} "
+                                            f"although nothing was subscribed on the new connection (before the loss: {'ALL' if st['all'] else sorted(st['subs'])})"})
+                        break
+            except Exception as e:
+                V.append({"mech": f"reconnect_after_loss_failed:{type(e).__name__}", "detail": str(e)[:200]})
+            finally:
+                peer2.shutdown()
         res["sets"]["script_kinds"] = [[k] for k in case["kinds"]]
         res["sets"]["adjacent_pairs"] = [[a, b] for a, b in zip(case["kinds"], case["kinds"][1:])]
         if close and close.get("at"):
